@@ -353,7 +353,7 @@ pub fn gen_c14(rng: &mut Rng, _tier: Tier) -> NetProgram {
         if rng.chance(1, 10) {
             let g = rng.below(2) as u32;
             let n = 21 + rng.usize(40);
-            let acts: Vec<Act> = (0..n).map(|_| Act::Send { gate: g, delay_ns: 0, body: 0 }).collect();
+            let acts: Vec<Act> = (0..n).map(|_| Act::Send { gate: g, delay_ns: rng.below(3) * 1_000_000, body: 0 }).collect();
             prog.modules[i].beats.push(Beat { at_ns: t + SEC, acts });
         }
     }
@@ -707,13 +707,20 @@ pub fn gen_c20(rng: &mut Rng, tier: Tier) -> NetProgram {
             }
         }
     }
-    // a ring of transit gates (all-transit cycle) on extra gates
+    // a chain over one gate per module that the driver closes into a ring (all gates transit) while messages are
+    // queued on its first hop
     if nmod >= 3 && rng.chance(1, 3) {
         for m in 0..3 {
-            prog.modules[m].gates.push(("ring".into(), 2));
+            prog.modules[m].gates.push(("ring".into(), 1));
         }
-        for m in 0..3u32 {
-            prog.links.push(Link { am: m, ag: 5, bm: (m + 1) % 3, bg: 4, flip: rng.chance(1, 2), chan: if rng.chance(1, 2) { Some(Chan { bitrate: 1000, latency_ns: 1000, jitter_ns: 0, queue: -1 }) } else { None } });
+        let slow = Some(Chan { bitrate: 1000, latency_ns: 1000, jitter_ns: 0, queue: -1 });
+        prog.links.push(Link { am: 0, ag: 4, bm: 1, bg: 4, flip: rng.chance(1, 2), chan: slow.clone() });
+        prog.links.push(Link { am: 1, ag: 4, bm: 2, bg: 4, flip: rng.chance(1, 2), chan: if rng.chance(1, 2) { slow.clone() } else { None } });
+        // traffic onto the chain before it is closed: a burst, so that a backlog builds up
+        let burst: Vec<Act> = (0..2 + rng.small(3)).map(|_| Act::Send { gate: 4, delay_ns: 0, body: 1 + rng.below(5) as u8 }).collect();
+        prog.modules[0].beats.insert(0, Beat { at_ns: 0, acts: burst });
+        if rng.chance(2, 3) {
+            prog.late_links.push((1_000_000 + rng.below(3) * SEC, Link { am: 2, ag: 4, bm: 0, bg: 4, flip: rng.chance(1, 2), chan: if rng.chance(1, 2) { slow } else { None } }));
         }
     }
     // elements hold tokens too
@@ -723,6 +730,11 @@ pub fn gen_c20(rng: &mut Rng, tier: Tier) -> NetProgram {
     if rng.chance(1, 3) {
         let v = rng.usize(nmod);
         prog.modules[v].pes.push(PeSpec::default());
+    }
+    // an element that panics on some message: the panic is outside the module harness and unwinds out of run()
+    if rng.chance(1, 8) {
+        let v = rng.usize(nmod);
+        prog.modules[v].pes.push(PeSpec { mode: 4, m: 1 + rng.below(4) as u32, r: rng.below(4) as u32, send_hook: 0, gate: 0 });
     }
     // shut-down / restarted modules, modules that panic
     if rng.chance(1, 3) {
@@ -752,6 +764,12 @@ pub fn gen_c20(rng: &mut Rng, tier: Tier) -> NetProgram {
     prog.drop_order = rng.below(3) as u8;
     for m in &mut prog.modules {
         m.tasks = crate::asy::gen_tasks_c20(rng);
+    }
+    // messages caught in a closed ring circulate forever: such runs always end by a time limit
+    if !prog.late_links.is_empty() {
+        prog.end_mode = 0;
+        prog.max_events = 0;
+        prog.max_time_ns = 3 * SEC + rng.below(20) * SEC;
     }
     prog
 }
